@@ -121,3 +121,14 @@ PROPS['C11'] = {
     'outside': ['pairs such as (1,1024): type/size level only', 'drop accounting: C03'],
     'assumptions': [],
 }
+
+PROPS['C13'] = {
+    'kani': {
+        'quick': [krun(['c13::q::'], timeout=600, bounds='N in 0..=4; fully symbolic pairs over u8, i32, f64 (all bit patterns incl. NaN), nested GenericArray<u8,U2>; recording Hasher; non-alternate Debug with symbolic width/precision over token elements')],
+        'thorough': [krun(['c13::'], timeout=2400, bounds='N in 0..=8')],
+    },
+    'functions': ['PartialEq/Eq/PartialOrd/Ord/Hash/Debug/Borrow<[T]> for GenericArray'],
+    'bounds': 'K: N <= 4 (thorough 8), every element value symbolic.',
+    'outside': ['String elements', 'real HashMap (SipHash) runs', 'float-to-decimal formatting', 'executing {:#?} (PadAdapter loops exhaust CBMC; covered by M\'s delegation obligation)'],
+    'assumptions': [],
+}
